@@ -459,6 +459,8 @@ public:
                     v["type"] = typeStr(VD->getType());
                     v["static"] = VD->isStaticLocal();
                     v["const"] = VD->getType().isConstQualified();
+                    if (auto TSI = VD->getTypeSourceInfo())
+                        v["auto"] = TSI->getType()->getContainedDeducedType() != nullptr;
                     v["init"] = dumpOpt(VD->getInit());
                 } else if (auto ND = dyn_cast<NamedDecl>(D)) {
                     v["other"] = ND->getNameAsString();
